@@ -153,10 +153,6 @@ fn process_z80r_block<H: Host>(emulator: &mut Emulator<H>, block_data: &[u8]) {
     emulator.cpu.skip_interrupt = flags & ZXSTZF_EILAST != 0;
     emulator.cpu.halted = flags & ZXSTZF_HALTED != 0;
 
-    if emulator.cpu.halted {
-        emulator.cpu.regs.inc_pc();
-    }
-
     // v1.5
     if flags & ZXSTZF_FSET != 0 {
         emulator.cpu.regs.set_q()
@@ -413,6 +409,18 @@ where
         cursor_pos += size as usize;
 
         asset.seek(SeekFrom::Start(cursor_pos))?;
+    }
+    // Halted CPU in this emulator keeps PC on the HALT opcode and executes it again and again.
+    // Snapshot may store address of the HALT itself or of the next instruction, memory is
+    // known only after all RAM pages are loaded
+    if emulator.cpu.halted {
+        let pc = emulator.cpu.regs.get_pc();
+        const HALT_OPCODE: u8 = 0x76;
+        if emulator.controller.memory.read(pc) != HALT_OPCODE
+            && emulator.controller.memory.read(pc.wrapping_sub(1)) == HALT_OPCODE
+        {
+            emulator.cpu.regs.set_pc(pc.wrapping_sub(1));
+        }
     }
     emulator.controller.refresh_memory_dependent_devices();
     Ok(())
